@@ -1096,7 +1096,7 @@ func runC01prec(cfg Config, r *Result) {
 		return
 	}
 	defer model.Close()
-	r.Rule = "random derivations of the layered left-associative grammar (or < and < ==,!= < <,<=,>,>= < +,- < *,/,% < unary -,! < primary: literal, variable, ( e ), a[i], a[i:j], m.k, an.(num), (max e e), [e e][i]), well typed over num/bool/string, depth <= 6 (quick) / 10 (thorough), random redundant parentheses; each rendered under 3 legal layouts (random, minimal, one-space) in one of 9 statement contexts (decl, assign, if condition, index assignment: free; print arguments, array elements, call arguments, map value: tight; print (e): free inside); plus a perturbed stream (whitespace inserted/removed at random boundaries). Non-trivial = at least 2 distinct operators and 5 nodes; distinct = distinct statement text."
+	r.Rule = "random derivations of the layered left-associative grammar (or < and < ==,!= < <,<=,>,>= < +,- < *,/,% < unary -,! < primary: literal, variable, ( e ), a[i], a[i:j], m.k, an.(num), (max e e), [e e][i], {k1:e k2:e}.k), well typed over num/bool/string, depth <= 6 (quick) / 10 (thorough), random redundant parentheses; each rendered under 3 legal layouts (random, minimal, one-space) in one of 9 statement contexts (decl, assign, if condition, index assignment: free; print arguments, array elements, call arguments, map value: tight; print (e): free inside); plus a perturbed stream (whitespace inserted/removed at random boundaries). Non-trivial = at least 2 distinct operators and 5 nodes; distinct = distinct statement text."
 	if cfg.Replay != "" {
 		b, err := os.ReadFile(cfg.Replay)
 		if err != nil {
